@@ -281,13 +281,13 @@ PROPS = {
     },
     "C04": {
         "verus": [("tree_node", ["TreeNode.set_child", "lemma_sum"]), "azks_audit", "azks_walk", ("directory_lookup", ["Directory.audit", "Azks.get_latest_epoch"]),
-                  ("directory_publish", ["Directory.publish__tail", "Directory.publish__after_commit", "Azks.get_latest_epoch"])],
+                  ("directory_publish", ["Directory.publish__tail", "Directory.publish__after_commit", "Azks.get_latest_epoch"]), "auditor_complete", ("readonly_wrapper", ["ReadOnlyDirectory.audit"])],
         "search": True,
         "always_search": True,
         "bounded_search": [{"obligation": "replay/c04#all_ranges",
                             "bound": "one fixed 5-epoch history (new labels, updates, a no-op publish, a batch naming one label twice); every pair (s, e) with 0 <= s, e <= current + 1 after every publish; "
                                      "sequential and parallel insertion; both configurations; in-memory database - a cross-check of the whole statement for what lies between the verified units (trie insertion)"}],
-        "scope": "partial: the (epoch, hash) pairs publish announces: an epoch is announced only after an accepted commit, and the batch is written only once the epoch it was prepared for has been confirmed inside the transaction (so no epoch is issued twice - the audit chain would not match the announced pairs otherwise); Directory::audit refuses s >= e and e beyond the epoch of the one epoch record it read, and otherwise returns the proof of exactly (s, e) from that epoch record; batch_insert_nodes leaves the tree untouched for an empty batch (the recursive insertion and the root write are entered only with a non-empty set - "
+        "scope": "the client-side audit_verify adds no rejection of its own: a proof whose list lengths agree and whose every step the step verifier accepts is ACCEPTED (unit auditor_complete; the step verifier's answer is a function of its arguments there, its soundness is C09); partial: the (epoch, hash) pairs publish announces: an epoch is announced only after an accepted commit, and the batch is written only once the epoch it was prepared for has been confirmed inside the transaction (so no epoch is issued twice - the audit chain would not match the announced pairs otherwise); Directory::audit refuses s >= e and e beyond the epoch of the one epoch record it read, and otherwise returns the proof of exactly (s, e) from that epoch record; batch_insert_nodes leaves the tree untouched for an empty batch (the recursive insertion and the root write are entered only with a non-empty set - "
                  "the auditor's start tree of an audit from epoch 0 depends on it) and advances the epoch by one; get_append_only_proof refuses every range with end <= start or end beyond the latest epoch, and for an accepted range returns exactly one proof per epoch "
                  "start..end (epochs list = start, start+1, .., end-1; |proofs| = |epochs|; proof i = the walk for (start+i, start+i+1) from the root as of the latest epoch); "
                  "the walk get_append_only_proof_helper itself (sequential branch, spawned task body and join, all under contract): what it returns equals walk_spec of the stored tree - a subtree not updated after s is reported by its root with the value its parent hashes (the tree root is not reported), "
